@@ -34,6 +34,40 @@ const TYPED_CONTEXTS: &[(&str, &[&str])] = &[
     ("a = @ { =0 => 0x01 | 1 }, {}", &["0", "1"]),
     ("a = @ { =0 => A[1] | B }, {}", &["0", "1"]),
     ("a = @ { =0 => A[1] | B }, a { {} }", &["0", "1"]),
+    // a runtime test against a partial type (through an alias) that a variant merely overlaps:
+    // failing it must not exclude the variant from the later branches
+    ("'r = (x: 'int)\nf = #(P[x: 'int | 'bin] | Q[y: 'int]) { ='r => 1 | {} }, @ f", &["P[x: 5]", "P[x: 0x00]", "Q[y: 9]"]),
+    ("'r = (x: 'int)\nf = #(P[x: 'int | 'bin] | Q[y: 'int]) { {} }, @ f", &["P[x: 5]", "P[x: 0x00]", "Q[y: 9]"]),
+];
+
+/// Spread family: every tuple of 1..=3 elements drawn from spreads of three records whose fields
+/// share names at different types and from explicit fields, read back whole and field by field
+/// (the type of a field must follow the source its value comes from).
+pub fn spread_programs() -> Vec<String> {
+    const PRELUDE: &str = "a = A[x: 1, y: 2], b = [y: 0x03], d = [x: 0x04, z: 5], ";
+    const ELEMS: &[&str] = &["...a", "...b", "...d", "x: 9", "y: 0x08", "z: A"];
+    const USES: &[&str] = &["c", "c.x", "c.y", "c.z", "c.y { ='int => [~, 1] __integer_add__ | ='bin => 0 | 7 }"];
+    let mut tuples: Vec<String> = vec![];
+    for e1 in ELEMS {
+        tuples.push(e1.to_string());
+        for e2 in ELEMS {
+            tuples.push(format!("{}, {}", e1, e2));
+            for e3 in ELEMS {
+                tuples.push(format!("{}, {}, {}", e1, e2, e3));
+            }
+        }
+    }
+    let mut out = vec![];
+    for t in &tuples {
+        for u in USES {
+            out.push(format!("{}c = [{}], {}", PRELUDE, t, u));
+        }
+        // through a function boundary with a union-typed spread source
+        out.push(format!("'tb = [y: 'bin] | [y: 'bin, z: 'int]\nf = #[a: [x: 'int, y: 'int], b: 'tb] {{ =[a: a, b: b] => d = [x: 0x04, z: 5], [{}] }}, [a: [x: 1, y: 2], b: [y: 0x07, z: 9]] f .y", t));
+    }
+    out
+}
+const _UNUSED: &[(&str, &[&str])] = &[
 ];
 
 /// Cores used inside the typed contexts in addition to the generic grammar: uses that are only
@@ -46,6 +80,8 @@ const TYPED_ATOMS: &[&str] = &[
     "=A[b]", "=A[b] b", "=B", "=('int)b", "=('int)b b", "=('bin)b", "=('bin)b b", "=[a, b]", "=[a, ('int)b]",
     "=(x)", "=(x: ('int)b)", "=Cons[a, b]", "=Cons[a, b] a", "=Cons[a, b] b", "=Nil", ".0", ".1", ".x", ".y", "$", "~", "a", "b",
     "='int", "='bin", "=[]", "=0", "=1", "a .0", "a =A[b] b", "a =('bin)b [b, b] __binary_concat__",
+    // destructuring of the variants of the partial-alias context
+    "=Q[y: b]", "=P[x: b]", "=P[x: b] b",
 ];
 
 #[derive(Default)]
@@ -473,6 +509,7 @@ pub fn typed_programs(thorough: bool) -> Vec<String> {
         }
     }
     let mut out: Vec<String> = PROBES.iter().map(|s| s.to_string()).collect();
+    out.extend(spread_programs());
     for (ctx, args) in TYPED_CONTEXTS {
         for arg in *args {
             let c = ctx.replace('@', arg);
@@ -526,17 +563,18 @@ pub fn universe(thorough: bool) -> (Vec<String>, J) {
             }
         }
     }
+    out.extend(spread_programs());
     let typed = out.len();
     // the untyped grammar and contexts of C02 are part of the universe too
     let flat = progen::programs(if thorough { 4 } else { 2 }, if thorough { 3_000_000 } else { 200_000 });
     let flat_n = flat.len();
     out.extend(flat);
-    let (inctx, inctx_capped) = progen::in_contexts(if thorough { 3 } else { 2 }, if thorough { 2_000_000 } else { 45_000 });
+    let (inctx, inctx_capped) = progen::in_contexts(if thorough { 3 } else { 2 }, if thorough { 2_000_000 } else { 150_000 });
     let inctx_n = inctx.len();
     out.extend(inctx);
     let meta = json!({"typed_contexts": TYPED_CONTEXTS.len(), "typed_context_instances": TYPED_CONTEXTS.iter().map(|c| c.1.len()).sum::<usize>(),
         "cores": cores.len(), "generic_cores": generic_cores, "typed_atoms": TYPED_ATOMS.len(), "core_nodes": core_nodes,
-        "typed_programs": typed, "flat_programs": flat_n, "programs_in_untyped_contexts": inctx_n, "untyped_context_products_capped": inctx_capped, "probes": PROBES.len()});
+        "typed_programs": typed, "flat_programs": flat_n, "programs_in_untyped_contexts": inctx_n, "untyped_context_products_capped": inctx_capped, "probes": PROBES.len(), "spread_family_programs": spread_programs().len()});
     (out, meta)
 }
 
